@@ -56,7 +56,7 @@ static const char *probe_names[PR_MAX] = {
 	"thread_exit_nodeinit", "sig_cb", "sig_during_handler", "sig_handoff", "wait_cb",
 	"pid_reused", "kill_dead", "work_run", "work_done", "pool_put_busy", "idle_timeout",
 	"pump_bytes", "pump_full", "pump_eof", "inot_cb", "inot_multi", "popen_kill",
-	"reg_failed_event", "timer_many", "radix_cross", "sig_nowalk", "sig_foreign_thread", "reg_failed_ext", "timer_parked", "reenter_after_quit",
+	"reg_failed_event", "timer_many", "radix_cross", "sig_nowalk", "sig_foreign_thread", "reg_failed_ext", "timer_parked", "reenter_after_quit", "pump_kick", "work_depends",
 };
 
 extern int __llvm_profile_write_file(void) __attribute__((weak));
@@ -879,7 +879,9 @@ int exec_op(struct rthr *th, const struct pop *op)
 			r = op_seth(th, (int)op->d, (int)op->a, (int)op->b);
 		break;
 	case OP_POST:
-		if (op->d >= 0 && op->d < PL->nobj)
+		if (op->d >= 0 && op->d < PL->nobj && PL->obj[op->d].kind == K_PUMP)
+			r = ext4_pump_kick(th, (int)op->d);	/* the application calls the pump without a readiness event */
+		else if (op->d >= 0 && op->d < PL->nobj)
 			r = op_post(th, (int)op->d, 1);
 		break;
 	case OP_QUIT:
